@@ -61,7 +61,11 @@ class C17(Plugin):
                 p = rng.choice(known) if rng.random() < 0.75 else rng.choice(["nope", "zz", "Unknown"])
                 ident = "/".join(segment(rng, d) for _ in range(rng.choice([1, 1, 2, 3, 4])))
                 paths.append(p + d + ident)
-            yield [recs, d, list(dict.fromkeys(paths))]
+            # staging: the app is built when only the first `early` records are registered; the requests are sent, the remaining
+            # records arrive through add_prefix on the live converter, and the same requests are sent again (a resolver serves a
+            # converter that may grow; "302 to what converter.expand returns" holds at every moment)
+            early = rng.choice([len(recs)] * 3 + list(range(len(recs))))
+            yield [recs, d, list(dict.fromkeys(paths)), [], early]
 
     def observe(self, case):
         import curies
@@ -69,24 +73,40 @@ class C17(Plugin):
         from fastapi.testclient import TestClient
 
         recs, d, paths = case[:3]
-        c = curies.Converter(qprops.mk_records(recs), delimiter=d)
-        # "redirects to the result of converter.expand": the implementation's own expand answers travel with the case
-        expands = []
-        for p in paths:
-            try:
-                expands.append(opt(c.expand(p)))
-            except Exception:
-                expands.append(None)
-        case = [recs, d, paths, expands]
+        early = case[4] if len(case) > 4 else len(recs)
+        if early < len(recs):
+            paths = paths[:len(paths) // 2] if len(paths) % 2 == 0 and paths[:len(paths) // 2] == paths[len(paths) // 2:] else paths
+        c = curies.Converter(qprops.mk_records(recs[:early]), delimiter=d)
         fl = get_flask_app(c).test_client()
         fa = TestClient(get_fastapi_app(c))
-        rows = []
-        for p in paths:
-            r1 = fl.get("/" + p, follow_redirects=False)
-            r2 = fa.get("/" + p, follow_redirects=False)
-            rows.append([[r1.status_code, r1.headers.get("Location", "") if r1.status_code == 302 else ""],
-                         [r2.status_code, r2.headers.get("location", "") if r2.status_code in (302, 307) else ""]])
+        expands, rows, asked = [], [], []
+
+        def ask():
+            # "redirects to the result of converter.expand": the implementation's own expand answers (at the time of the request)
+            # travel with the case
+            for p in paths:
+                try:
+                    expands.append(opt(c.expand(p)))
+                except Exception:
+                    expands.append(None)
+                r1 = fl.get("/" + p, follow_redirects=False)
+                r2 = fa.get("/" + p, follow_redirects=False)
+                rows.append([[r1.status_code, r1.headers.get("Location", "") if r1.status_code == 302 else ""],
+                             [r2.status_code, r2.headers.get("location", "") if r2.status_code in (302, 307) else ""]])
+                asked.append(p)
+
+        ask()
+        if early < len(recs):
+            for p, u, ps, us, pat in recs[early:]:
+                c.add_prefix(p, u, prefix_synonyms=list(ps), uri_prefix_synonyms=list(us))
+            ask()
+        case = [recs, d, asked, expands, early]
         return case, rows
+
+    def in_domain(self, case):
+        # URI prefixes stay lower-case ASCII http URLs: Werkzeug rewrites the Location header (case of scheme and host, IRI -> URI
+        # quoting) into an equivalent URI, which is HTTP-level normalisation and not what C17 is about (see DESIGN, scoping)
+        return all(u.startswith("http://a.org/") for r in case[0] for u in [r[1], *r[3]])
 
     def nontrivial(self, case, obs):
         recs, d, paths = case[:3]
@@ -98,6 +118,8 @@ class C17(Plugin):
             h = acc.setdefault("flask_status_hist", {})
             h[k] = h.get(k, 0) + 1
         acc["requests_per_framework"] = acc.get("requests_per_framework", 0) + len(obs)
+        if len(case) > 4 and case[4] < len(case[0]):
+            acc["cases_with_records_added_to_the_live_converter_between_two_rounds_of_requests"] = acc.get("cases_with_records_added_to_the_live_converter_between_two_rounds_of_requests", 0) + 1
 
     def sample(self, case, obs):
         return {"records": plain(case[0]), "delimiter": case[1], "paths": case[2][:4], "responses [flask, fastapi]": plain(obs[:4])}
